@@ -95,7 +95,7 @@ func Fold(v reflect.Value, cfg *Config) (val.V, error) {
 		}
 		return out, nil
 	case reflect.Struct:
-		out := val.V{K: val.Obj}
+		out := val.V{K: val.Obj, IsStruct: true}
 		if err := members(v, cfg, &out); err != nil {
 			return out, err
 		}
